@@ -162,8 +162,12 @@ def run_case(case):
         }
         for unw, key in ((False, 'mean_w'), (True, 'mean_u')):
             l = []
-            for c in sorted(set(inp['sc'])):
-                l.append((int(c), _col_pairs(m.get_cluster_mean_waveforms(c, unwhiten=unw))))
+            for j, c in enumerate(sorted(set(inp['sc']))):
+                # the unwhitened route is observed through the DEFAULT call (signature: unwhiten=True) on every other
+                # cluster id and through the explicit keyword on the others (stage 3, mutant "default True -> False")
+                r = (m.get_cluster_mean_waveforms(c) if (unw and j % 2 == 1) else
+                     m.get_cluster_mean_waveforms(c, unwhiten=unw))
+                l.append((int(c), _col_pairs(r)))
             obs[key] = l
         m.close()
         return ('loaded', obs)
